@@ -10,6 +10,7 @@
 #include <asam_cmp/status.h>
 #include <atomic>
 #include <cstdio>
+#include <string>
 #include <thread>
 #include <vector>
 using namespace ASAM::CMP;
@@ -81,7 +82,7 @@ static uint64_t workload(unsigned salt)
     }
     // capture-module status through the status tracker
     CaptureModulePayload cm;
-    cm.setData("desc", "sn-1", "hw", "sw", {1, 2, 3});
+    cm.setData("desc", "sn-" + std::to_string(salt), "hw" + std::to_string(salt % 7), "sw", {1, 2, static_cast<uint8_t>(salt)});
     Packet cp;
     cp.setPayload(cm);
     cp.setDeviceId(static_cast<uint16_t>(3 + salt));
@@ -120,23 +121,31 @@ static uint64_t workload(unsigned salt)
 
 int main()
 {
-    const unsigned nthreads = 4, iters = 60;
-    uint64_t expect[4];
-    for (unsigned t = 0; t < nthreads; ++t)
-        expect[t] = workload(t);
-    std::atomic<int> bad{0};
+    // The concurrent phase runs first and every iteration brings data no thread has processed before (so that insert /
+    // first-use paths of any shared cache run concurrently, not only its read path); the single-threaded reference
+    // digests are computed afterwards.
+    const unsigned nthreads = 4, iters = 48;
+    static uint64_t got[4][48];
     std::vector<std::thread> th;
     for (unsigned t = 0; t < nthreads; ++t)
         th.emplace_back([&, t] {
             for (unsigned i = 0; i < iters; ++i)
-                if (workload(t) != expect[t])
-                    ++bad;
+                got[t][i] = workload(t + nthreads * i);
         });
     for (auto& x : th)
         x.join();
+    int bad = 0;
+    for (unsigned t = 0; t < nthreads; ++t)
+        for (unsigned i = 0; i < iters; ++i)
+            if (workload(t + nthreads * i) != got[t][i])
+                ++bad;
+    // a fresh process-wide history must not matter either: same inputs again, now after everything has been seen once
+    for (unsigned t = 0; t < nthreads; ++t)
+        if (workload(t) != got[t][0])
+            ++bad;
     if (bad)
     {
-        printf("C19-NATIVE: %d result digests differ from the single-threaded digests\n", bad.load());
+        printf("C19-NATIVE: %d result digests differ from the single-threaded digests\n", bad);
         return 1;
     }
     printf("C19-NATIVE: all digests equal\n");
